@@ -69,8 +69,8 @@ CheckSilent(st, t) ==
    that is not one of its listener calls / browser callbacks *)
 ClosePurge(st) ==
   IF st.ph.k # "none" /\ st.ph.isPurge
-  THEN IF Bad(st.ph.left # {}, "C06_EachListenerOnce") THEN Fail(st, "C06_EachListenerOnce")
-       ELSE IF Bad(st.ph.k = "upd" /\ st.lst # {}, "C06_EachListenerOnce") THEN Fail(st, "C06_EachListenerOnce")
+  THEN IF Bad(st.ph.left # {} /\ ~st.ph.lax, "C06_EachListenerOnce") THEN Fail(st, "C06_EachListenerOnce")
+       ELSE IF Bad(st.ph.k = "upd" /\ st.lst # {} /\ ~st.ph.lax, "C06_EachListenerOnce") THEN Fail(st, "C06_EachListenerOnce")
        ELSE [st EXCEPT !.ph = NoPhase]
   ELSE st
 
@@ -264,6 +264,9 @@ Step(st, e) ==
     \* the snapshot that follows says which (Resolve)
     [] e.ev = "uexc"        -> IF st.ph.k = "upd" /\ ~st.ph.isPurge
                                THEN [st EXCEPT !.ph.lax = TRUE, !.loose = {st.ph.pairs[k].n : k \in 1..Len(st.ph.pairs)}]
+                               \* in the purge the records are gone already: who else is told about this batch is not judged, the
+                               \* purges that follow are
+                               ELSE IF st.ph.k = "upd" /\ st.ph.isPurge THEN [st EXCEPT !.ph.lax = TRUE]
                                ELSE Fail(st, "Trace_Malformed")
     [] e.ev = "exc"         -> IF D.own = "ALL" THEN Fail(st, "C15_NoException") ELSE [st EXCEPT !.exc = TRUE]
     [] e.ev = "end"         -> OnEnd(st, e)
